@@ -102,6 +102,8 @@ def to_z3(v):
 
 
 def to_real(v):
+    if isinstance(v, int) and not isinstance(v, bool):
+        return z3.RealVal(v)
     v = to_z3(v) if not is_sym(v) else v
     if z3.is_int(v):
         return z3.ToReal(v)
@@ -216,6 +218,40 @@ def floordiv(a, b):
     return z3.ToReal(z3.ToInt(to_real(a) / to_real(b)))
 
 
+_ARITH_KINDS = None
+
+
+def _first_ite_under_arith(t):
+    """an if-then-else sub-term of t that is reached through arithmetic operators only"""
+    global _ARITH_KINDS
+    if _ARITH_KINDS is None:
+        _ARITH_KINDS = {z3.Z3_OP_ADD, z3.Z3_OP_SUB, z3.Z3_OP_MUL, z3.Z3_OP_DIV, z3.Z3_OP_UMINUS, z3.Z3_OP_TO_REAL}
+    stack = [t]
+    while stack:
+        x = stack.pop()
+        if not z3.is_app(x):
+            continue
+        k = x.decl().kind()
+        if k == z3.Z3_OP_ITE:
+            return x
+        if k in _ARITH_KINDS:
+            stack.extend(x.children())
+    return None
+
+
+def lift_ite(t, fn, budget=24):
+    """fn applied below the conditionals of t:  fn(ite(c, a, b) + d)  ->  ite(c, fn(a + d), fn(b + d)).
+    Same value; keeps to_int / modulo arguments free of if-then-else, which the solvers handle much better."""
+    if not is_sym(t) or budget <= 1:
+        return fn(t)
+    it = _first_ite_under_arith(t)
+    if it is None:
+        return fn(t)
+    c, a, b = it.children()
+    half = budget // 2
+    return ite(c, lift_ite(z3.substitute(t, (it, a)), fn, half), lift_ite(z3.substitute(t, (it, b)), fn, half))
+
+
 def mod(a, b):
     if _anyx(a, b):
         return _xlift(mod, a, b)
@@ -224,9 +260,8 @@ def mod(a, b):
         return a % b
     if _is_intlike(a) and _is_intlike(b):
         return sub(a, mul(b, floordiv(a, b)))
-    ra, rb = to_real(a), to_real(b)
-    k = z3.ToInt(ra / rb)
-    return ra - rb * z3.ToReal(k)
+    rb = to_real(b)
+    return lift_ite(to_real(a), lambda ra: ra - rb * z3.ToReal(z3.ToInt(ra / rb)))
 
 
 WRAPS = []  # (period term, integer term k) of every real modulo built in this process
@@ -648,6 +683,7 @@ def defined_function_ids():
 def ext_axioms(terms):
     """witness and bound axioms for max/min applications (ground apps only)"""
     ax = []
+    firsts = {}
     for x in ground_subterms(terms).values():
         if z3.is_app(x) and x.decl().get_id() in ExtDef.registry:
             d = ExtDef.registry[x.decl().get_id()]
@@ -664,6 +700,15 @@ def ext_axioms(terms):
             ax.append(z3.And(x >= lo, z3.Implies(hi >= lo, x <= hi), z3.Implies(hi < lo, x == lo)))
             ax.append(z3.ForAll([j], z3.Implies(z3.And(lo <= j, j < x), z3.Not(d.body_at(x, j)))))
             ax.append(z3.Implies(x < hi, d.body_at(x, x)))
+            firsts.setdefault(x.decl().get_id(), []).append(x)
+    # ground instances of the minimality axiom of one First application at another application of the
+    # same definition (what is needed to show that two searches return the same index)
+    for apps in firsts.values():
+        for x in apps[:6]:
+            d = FirstDef.registry[x.decl().get_id()]
+            for y in apps[:6]:
+                if y is not x:
+                    ax.append(z3.Implies(z3.And(x.arg(0) <= y, y < x), z3.Not(d.body_at(x, y))))
     return ax
 
 
@@ -771,6 +816,7 @@ def subst_deep(t, const_map=(), func_map=()):
 
 # --------------------------------------------------------------------------- nonlinear abstraction
 MULF = z3.Function("mul_abs", RealS, RealS, RealS)
+MULFI = z3.Function("mul_abs_i", IntS, IntS, IntS)
 DIVF = z3.Function("div_abs", RealS, RealS, RealS)
 
 
@@ -808,7 +854,14 @@ def _abstract_nonlinear(fs):
             if kind == z3.Z3_OP_MUL:
                 nums = [c for c in ch if isnum(c)]
                 rest = [c for c in ch if not isnum(c)]
-                if len(rest) >= 2:
+                if len(rest) >= 2 and z3.is_int(t) and all(z3.is_int(c) for c in ch):
+                    acc = rest[0]
+                    for c in rest[1:]:
+                        acc = MULFI(acc, c)
+                    for nn in nums:
+                        acc = nn * acc
+                    r = acc
+                elif len(rest) >= 2:
                     rest = [to_real(c) for c in rest]
                     acc = rest[0]
                     for c in rest[1:]:
@@ -853,7 +906,11 @@ def _abstract_nonlinear(fs):
                 extra += [z3.Implies(z3.And(a >= 0, b > 0), t >= 0), z3.Implies(z3.And(a <= 0, b > 0), t <= 0),
                           z3.Implies(z3.And(a >= 0, b < 0), t <= 0), z3.Implies(z3.And(a <= 0, b < 0), t >= 0),
                           z3.Implies(z3.And(a > 0, b > 0), t > 0), z3.Implies(a == 0, t == 0),
-                          z3.Implies(b == 1, t == a)]
+                          z3.Implies(b == 1, t == a),
+                          # comparison of a quotient with one (b > 0)
+                          z3.Implies(z3.And(b > 0, a < b), t < 1), z3.Implies(z3.And(b > 0, a <= b), t <= 1),
+                          z3.Implies(z3.And(b > 0, a > b), t > 1), z3.Implies(z3.And(b > 0, a >= b), t >= 1),
+                          z3.Implies(z3.And(b != 0, a == b), t == 1)]
             else:
                 continue
             _signed.add(t.get_id())
@@ -861,9 +918,43 @@ def _abstract_nonlinear(fs):
     return out
 
 
-def instantiate_quantified(fs, cap=600):
+def quantifier_free(f):
+    for x in subterms(f).values():
+        if z3.is_quantifier(x):
+            return False
+    return True
+
+
+def _hoist_forall(f):
+    """f as a list of conjuncts in which universally quantified parts in positive position are at the top:
+    A -> forall k. B   becomes   forall k. (A -> B);   conjunctions are split.  (equivalences)"""
+    if z3.is_and(f):
+        out = []
+        for c in f.children():
+            out.extend(_hoist_forall(c))
+        return out
+    if z3.is_app(f) and f.decl().kind() == z3.Z3_OP_ITE and z3.is_bool(f):
+        c, a, b = f.children()
+        return _hoist_forall(z3.Implies(c, a)) + _hoist_forall(z3.Implies(z3.Not(c), b))
+    if z3.is_implies(f):
+        a, b = f.arg(0), f.arg(1)
+        out = []
+        for g in _hoist_forall(b):
+            if z3.is_quantifier(g) and g.is_forall():
+                n = g.num_vars()
+                cs = [z3.Const(Fresh.name("hq"), g.var_sort(i)) for i in range(n)]
+                body = z3.substitute_vars(g.body(), *reversed(cs))
+                out.append(z3.ForAll(cs, z3.Implies(a, body)))
+            else:
+                out.append(z3.Implies(a, g))
+        return out
+    return [f]
+
+
+def instantiate_quantified(fs, cap=2500, rounds=3):
     """Ground instances of the universally quantified formulas in `fs` at the integer index terms
-    that occur as arguments of array / function applications (sound: instances of hypotheses)."""
+    that occur as arguments of array / function applications (sound: instances of hypotheses).
+    Nested quantifiers (forall i. A -> forall j. B) are hoisted and instantiated in later rounds."""
     idx = {}
     for t in ground_subterms(fs).values():
         if z3.is_app(t) and t.num_args() > 0 and t.decl().kind() == z3.Z3_OP_UNINTERPRETED:
@@ -872,23 +963,29 @@ def instantiate_quantified(fs, cap=600):
                     idx[a.get_id()] = a
     terms = list(idx.values())
     out = []
+    todo = []
     for f in fs:
-        if not (z3.is_quantifier(f) and f.is_forall()):
-            continue
-        n = f.num_vars()
-        if n > 2 or any(f.var_sort(i) != IntS for i in range(n)):
-            continue
-        body = f.body()
-        if n == 1:
-            for t in terms:
-                out.append(z3.substitute_vars(body, t))
+        todo.extend(g for g in _hoist_forall(f) if z3.is_quantifier(g) and g.is_forall())
+    for _ in range(rounds):
+        nxt = []
+        for f in todo:
+            n = f.num_vars()
+            if n > 2 or any(f.var_sort(i) != IntS for i in range(n)):
+                continue
+            body = f.body()
+            if n == 1:
+                insts = [z3.substitute_vars(body, t) for t in terms]
+            else:
+                small = terms[:12]
+                insts = [z3.substitute_vars(body, t1, t2) for t1 in small for t2 in small]
+            for inst in insts:
+                for g in _hoist_forall(inst):
+                    out.append(g)
+                    if z3.is_quantifier(g) and g.is_forall():
+                        nxt.append(g)
                 if len(out) >= cap:
                     return out
-        else:
-            small = terms[:12]
-            for t1 in small:
-                for t2 in small:
-                    out.append(z3.substitute_vars(body, t1, t2))
-                    if len(out) >= cap:
-                        return out
+        todo = nxt
+        if not todo:
+            break
     return out
